@@ -188,7 +188,7 @@ Proof.
     assert (Hb' : nth_error (heap m') b = Some (bumped x)) by (rewrite Hh; apply nth_error_upd_eq; exact Hlt).
     apply HQ. split; auto.
     + split.
-      * split; reflexivity.
+      * repeat split; reflexivity.
       * rewrite Hh. eapply MI_upd; [exact HM|exact Hb| |].
         -- unfold bumped. cbn [live]. unfold buf_wf. cbn [asize cap data count names]. rewrite Nat.eqb_refl. cbn [one].
            repeat split; auto; lia.
@@ -236,8 +236,8 @@ Proof.
   - apply replace_inner_other_wp; [reflexivity|]. apply HQ. split; auto.
     apply step_ok_local; [exact HM|exact Hc| |apply same_env_refl|reflexivity|apply Ho].
     intros b. destruct other; cbn in *; auto; discriminate.
-  - destruct Hr as (x & Hb & Hl & _). destruct (MI_lookup _ _ _ _ HM Hb Hl) as (Hw & _).
-    eapply replace_inner_heap_wp; [exact Hb|exact Hl|exact Hw|]. intros m' He Hh Hnq.
+  - destruct Hr as (x & Hb & Hl & _). destruct (MI_lookup _ _ _ _ HM Hb Hl) as (Hw & Hcx & Hox).
+    eapply replace_inner_heap_wp; [exact Hb|exact Hl|exact Hw|lia|]. intros m' He Hh Hnq.
     apply HQ. split; auto.
     + eapply release_step; eauto. destruct He as (-> & _). apply Ho.
     + exists x. auto.
